@@ -130,11 +130,23 @@ func runC17(rc *RunCtx) *simkit.Violation {
 	if t.Bool(1, 3) && !conflictsWithTree(tree, "n1/n2/n3/n4/n5/n6/deep") {
 		tree["n1/n2/n3/n4/n5/n6/deep"] = t.Bytes(3*int(leaf) + 1)
 	}
+	if w.Cfg.Yields {
+		// several multi-leaf files: callers of the streamed mount compete for a leaf cache of one or two buffers
+		for i := 0; i < 2; i++ {
+			if p := fmt.Sprintf("big%d", i); !conflictsWithTree(tree, p) {
+				tree[p] = t.Bytes(t.Range(2, 4)*int(leaf) + t.Range(0, int(leaf)-1))
+			}
+		}
+	}
 	mb, v := addBundle(prop, d, setup, r, tree, leaf, 4)
 	if v != nil {
 		return v
 	}
 	streamed := t.Bool(1, 2)
+	yields := w.Cfg.Yields
+	if yields {
+		streamed = true // the yield points sit in the streaming reader of pkg/cafs
+	}
 	mc := w.Client("mount")
 	// the pre-downloaded mount reads files back from its local disk: a real directory (MemMapFs answers reads past
 	// EOF with ErrUnexpectedEOF where a real file says EOF)
@@ -142,9 +154,13 @@ func runC17(rc *RunCtx) *simkit.Violation {
 	bd := model.NewBundleDescriptor()
 	bd.LeafSize = leaf
 	var fs fuseutil.FileSystem
+	cacheBufs := t.Range(1, 6)
+	if yields {
+		cacheBufs = t.Range(1, 2)
+	}
 	mt, v := doOp(prop, w, mc, "mount", func() (interface{}, error) {
 		b := core.NewBundle(core.Repo("r1"), core.BundleID(mb.ID), core.ContextStores(d.Stores(mc)), core.ConsumableStore(localStore(disk)), core.BundleDescriptor(bd), core.Logger(nopLog), core.ConcurrentFileDownloads(t.Pick(1, 3, 10)))
-		ro, err := dfuse.NewReadOnlyFS(b, dfuse.Streaming(streamed), dfuse.Logger(nopLog), dfuse.CacheSize(t.Range(1, 6)*int(leaf)), dfuse.Prefetch(t.Pick(0, 1, 2)), dfuse.VerifyHash(true))
+		ro, err := dfuse.NewReadOnlyFS(b, dfuse.Streaming(streamed), dfuse.Logger(nopLog), dfuse.CacheSize(cacheBufs*int(leaf)), dfuse.Prefetch(t.Pick(0, 1, 2)), dfuse.VerifyHash(true))
 		if err != nil {
 			return nil, err
 		}
@@ -164,6 +180,9 @@ func runC17(rc *RunCtx) *simkit.Violation {
 		w.Faults = &simkit.FaultCfg{Err: 120, Budget: 2, Eligible: func(c *simkit.Call) bool { return c.Client == mc && c.Op == simkit.OpGet }}
 	}
 	nCallers, progMax := t.Range(1, 4), 10
+	if yields {
+		nCallers = t.Range(2, 4)
+	}
 	if w.Cfg.Immediate {
 		nCallers, progMax = t.Range(4, 8), 40
 	}
@@ -184,7 +203,10 @@ func runC17(rc *RunCtx) *simkit.Violation {
 		var prog []step
 		for i := 0; i < t.Range(2, progMax); i++ {
 			st := step{kind: t.Choose(4)}
-			if len(allPaths) > 0 && t.Bool(4, 5) {
+			if yields && t.Bool(2, 3) {
+				st.kind = 3
+				st.path = fmt.Sprintf("big%d", t.Choose(2))
+			} else if len(allPaths) > 0 && t.Bool(4, 5) {
 				st.path = allPaths[t.Choose(len(allPaths))]
 			} else {
 				st.path = []string{"nope", "d/nope", "wide/sibling-999", ""}[t.Choose(4)]
